@@ -8,7 +8,8 @@ record("TbFrame", f_code="TbCode", f_lineno="int")
 record("TbEntry", tb_frame="TbFrame", tb_lineno="int")
 record("Namespace", cleared="bool")
 dict_record("DoctestConfig", on_error="str", verbose="int", default_runtime_state="Val", reportchoice="str",
-            global_exec="Optional[str]")
+            global_exec="None")   # assumption of every proof: no --global-exec code is configured (it runs outside
+                                   # the capture and outside the failure ladder; not among the properties' quantifiers)
 # a RuntimeState seen from outside: an abstract value (its lookup semantics is C04)
 record("RuntimeState", state="Val")
 
@@ -145,7 +146,6 @@ _ONE = ("(result['passed'] and not result['failed'] and not result['skipped']) o
 contract(_Q + "run",
          params={"self": "DocTest", "verbose": "Maybe[int]", "on_error": "Maybe[str]"}, returns="RunSummary",
          globals={"sys.stdout": "Val"},
-         requires=[("no-global-exec", "not self.config['global_exec']")],
          ensures=[("one-verdict", _ONE),
                   ("failed-iff-recorded", "result['failed'] == (self.exc_info is not None)"),
                   ("stdout-restored", "sys.stdout is old(sys.stdout)"),
@@ -205,6 +205,11 @@ contract(_Q + "run",
                   " and not S.rs_flag(runstate.state, 'IGNORE_WANT'), ev_count('DoctestPart.check') == 1 and "
                   "ev_arg('DoctestPart.check', 0, 'part') is part and ev_arg('DoctestPart.check', 0, 'got_stdout') == cap.text and "
                   "ev_arg('DoctestPart.check', 0, 'unmatched') == before(self._unmatched_stdout))"),
+                 # C01.once (setup happens once): the module is pre-imported and its names copied into the namespace
+                 # before the FIRST executed part only
+                 ("setup-once", "implies(before(did_pre_import), did_pre_import and ev_count('DocTest._import_module') == 0 "
+                                "and ev_count('DocTest._test_globals') == 0)"),
+                 ("setup-before-first-executed-part", "implies(not " + _SK + ", did_pre_import)"),
                  ("want-ignored",
                   "implies(not " + _HASWANT + " or S.rs_flag(runstate.state, 'IGNORE_WANT'), ev_count('DoctestPart.check') == 0)"),
              ],
